@@ -1380,3 +1380,92 @@ func localAllocsOf(base ssa.Value) []*ssa.Alloc {
 	find(base, 0)
 	return allocs
 }
+
+// OriginsThroughCaptures is Origins that also looks through variables captured by a closure: a load of a free variable
+// is replaced by the values stored into the captured variable in the enclosing function(s) (depth <= 3).
+func OriginsThroughCaptures(v ssa.Value) []ssa.Value {
+	var out []ssa.Value
+	seen := map[ssa.Value]bool{}
+	var rec func(v ssa.Value, d int)
+	binding := func(fv *ssa.FreeVar) ssa.Value {
+		fn := fv.Parent()
+		par := fn.Parent()
+		if par == nil {
+			return nil
+		}
+		idx := -1
+		for i, f := range fn.FreeVars {
+			if f == fv {
+				idx = i
+			}
+		}
+		for _, b := range par.Blocks {
+			for _, in := range b.Instrs {
+				if mc, ok := in.(*ssa.MakeClosure); ok && mc.Fn == ssa.Value(fn) && idx >= 0 && idx < len(mc.Bindings) {
+					return mc.Bindings[idx]
+				}
+			}
+		}
+		return nil
+	}
+	rec = func(v ssa.Value, d int) {
+		for _, o := range Origins(v) {
+			if seen[o] {
+				continue
+			}
+			seen[o] = true
+			var fv *ssa.FreeVar
+			load := false
+			switch x := o.(type) {
+			case *ssa.FreeVar:
+				fv = x
+			case *ssa.UnOp:
+				if x.Op == token.MUL {
+					if f, ok := x.X.(*ssa.FreeVar); ok {
+						fv, load = f, true
+					}
+				}
+			}
+			if fv == nil || d > 3 {
+				out = append(out, o)
+				continue
+			}
+			b := binding(fv)
+			if b == nil {
+				out = append(out, o)
+				continue
+			}
+			if !load {
+				rec(b, d+1)
+				continue
+			}
+			// the captured cell: what is stored into it
+			n := 0
+			if al, ok := b.(*ssa.Alloc); ok {
+				for _, ref := range *al.Referrers() {
+					if st, ok := ref.(*ssa.Store); ok && st.Addr == ssa.Value(al) {
+						n++
+						rec(st.Val, d+1)
+					}
+				}
+			} else if f2, ok := b.(*ssa.FreeVar); ok {
+				// captured from a function further out: a load of that cell
+				if b2 := binding(f2); b2 != nil {
+					if al, ok := b2.(*ssa.Alloc); ok {
+						for _, ref := range *al.Referrers() {
+							if st, ok := ref.(*ssa.Store); ok && st.Addr == ssa.Value(al) {
+								n++
+								rec(st.Val, d+1)
+							}
+						}
+					}
+				}
+			}
+			if n == 0 {
+				out = append(out, o)
+			}
+		}
+	}
+	rec(v, 0)
+	return out
+}
